@@ -34,6 +34,7 @@ F23_SIG = 'cull;symptom=raises(Missing dependency)'
 F24_SIG = 'dask_take;empty_array;symptom=raises(range() arg 3 must not be zero)'
 F22_SIG = 'joint;duplicate_indexer;symptom=output_not_written'
 F48_SIG = 'joint;culled_selection;symptom=chunk_read_twice'
+F54_SIG = 'dataset.compute();zero_length_block_after_stepped_slice;symptom=wrong_data'
 
 
 def TR(code):
@@ -1045,7 +1046,7 @@ def run_joint(ctx, cases):
 # ---------------------------------------------------------------------------------------------
 # `dataset` over histories of accesses with faults: atomic, all-or-nothing, cached
 
-LAZY_KINDS = ['dataset', 'shape', 'dtype', 'getitem', 'getitem', 'get', 'len', 'str']
+LAZY_KINDS = ['dataset', 'shape', 'dtype', 'getitem', 'getitem', 'get', 'len', 'str', 'iter']
 DT_CODE = {np.dtype('int64'): 0, np.dtype('float64'): 1, np.dtype('int32'): 2}
 
 
@@ -1093,6 +1094,8 @@ def gen_lazy_case(rng):
 
     hist = []
     for _ in range(rng.randint(2, 6)):
+        if rng.random() < 0.12:      # the caller overwrites the index arrays it passed as `keep` (no access)
+            hist.append(dict(kind='mutate', objs=[], plan=[], k2=[]))
         kind = rng.choice(LAZY_KINDS)
         if kind == 'get':
             tg = [rng.randrange(len(objs)) for _ in range(rng.randint(1, 3))]
@@ -1118,7 +1121,11 @@ def gen_lazy_case(rng):
                 k2 = []
         hist.append(dict(kind=kind, objs=tg, plan=sorted(plan), k2=k2))
     return dict(stream='lazy', shape=list(shape), chunks=[list(c) for c in rnd_chunks(rng, shape)], objs=objs, hist=hist,
-                as_array=rng.random() < 0.5)
+                as_array=rng.random() < 0.5, src=rng.choice(['from_array', 'store']))
+
+
+def lazy_accesses(case):
+    return [r for r in case['hist'] if r['kind'] != 'mutate']
 
 
 def lazy_json(case):
@@ -1134,7 +1141,7 @@ def lazy_from_json(d):
 
 def wire_lazy(case):
     return [47, [case['shape'], [[o['parent'], [to_wire(i) for i in o['keep']], list(o['trs'])] for o in case['objs']],
-                 [[list(r['objs']), [list(p) for p in r['plan']]] for r in case['hist']]]]
+                 [[list(r['objs']), [list(p) for p in r['plan']]] for r in lazy_accesses(case)]]]
 
 
 def lazy_py_spec(case):
@@ -1170,7 +1177,7 @@ def lazy_py_spec(case):
         return 'ret', cur, calls
 
     out = []
-    for r in case['hist']:
+    for r in lazy_accesses(case):
         res = []
         for j in r['objs']:
             cls, arr, calls = access(j, [list(p) for p in r['plan']])
@@ -1212,26 +1219,51 @@ def run_lazy_impl(case):
         return transform
 
     out = []
+    from fixtures import recstore
     with warnings.catch_warnings(), dask.config.set(scheduler='sync'):
         warnings.simplefilter('ignore')
-        src = da.from_array(x, chunks=tuple(tuple(c) for c in case['chunks']))
-        objs = []
+        chunks = tuple(tuple(c) for c in case['chunks'])
+        if case.get('src') == 'store':
+            src = recstore.Rec(x=x).get_dask_array('x', chunks, x.dtype)
+        else:
+            src = da.from_array(x, chunks=chunks)
+        recstore.calls.clear()
+        objs, mutable = [], []
         for j, o in enumerate(case['objs']):
             parent = src if o['parent'] < 0 else objs[o['parent']]
-            objs.append(DaskLazyIndexer(parent, tuple(to_py(i, case['as_array']) for i in o['keep']),
-                                        [mk(j, k, c) for k, c in enumerate(o['trs'])]))
+            pk = [to_py(i, case['as_array']) for i in o['keep']]
+            mutable += [p for p in pk if isinstance(p, (list, np.ndarray))]
+            objs.append(DaskLazyIndexer(parent, tuple(pk), [mk(j, k, c) for k, c in enumerate(o['trs'])]))
         for r in case['hist']:
+            if r['kind'] == 'mutate':
+                for p in mutable:
+                    if isinstance(p, np.ndarray):
+                        p[...] = ~p if p.dtype == bool else 0
+                    else:
+                        for q in range(len(p)):
+                            p[q] = (not p[q]) if isinstance(p[q], bool) else 0
+                continue
             state['plan'] = [list(p) for p in r['plan']]
             state['calls'] = []
+            recstore.calls.clear()
             k2 = tuple(to_py(i, case['as_array']) for i in r['k2'])
-            ent = dict(cls='ret', obs=None, exc=None)
+            ent = dict(cls='ret', obs=None, exc=None, early=[])
             try:
                 t = objs[r['objs'][0]]
                 if r['kind'] == 'dataset':
                     v = t.dataset
+                    ent['early'] = list(recstore.calls)
                     ent['obs'] = None if v is None else arr3(v.compute())
                     if v is None:
                         ent['cls'] = 'none'
+                    else:
+                        # F54: dask computes a blockwise layer wrongly over a zero-length block left by a stepped slice;
+                        # indexer[()] (dask_getitem + da.store on the same data set) is not affected
+                        ent['zero_block'] = any(0 in c for c in v.chunks) and v.size > 0
+                        if ent['zero_block']:
+                            ent['via_getitem'] = arr3(t[()])
+                elif r['kind'] == 'iter':
+                    ent['obs'] = [arr3(v) for v in t]
                 elif r['kind'] == 'shape':
                     ent['obs'] = tuple(t.shape)
                 elif r['kind'] == 'dtype':
@@ -1250,7 +1282,10 @@ def run_lazy_impl(case):
                 ent['cls'] = 'error'
                 ent['exc'] = '%s:%s' % (type(e).__name__, str(e)[:80])
             ent['calls'] = list(state['calls'])
+            if r['kind'] in ('shape', 'dtype', 'len', 'str') or ent['cls'] != 'ret':
+                ent['early'] = list(recstore.calls)
             out.append(ent)
+        recstore.calls.clear()
     return out
 
 
@@ -1271,6 +1306,8 @@ def lazy_expected_obs(r, res):
             return ('ret', a.shape[0]) if a.ndim else ('error', None)
         if r['kind'] == 'str':
             return 'ret', '%s %s' % (tuple(a.shape), a.dtype)
+        if r['kind'] == 'iter':
+            return ('ret', [arr3(a[k]) for k in range(a.shape[0])]) if a.ndim else ('error', None)
         if r['kind'] == 'getitem':
             return 'ret', arr3(np_oindex(a, r['k2']))
         return 'ret', [arr3(np_oindex(b, r['k2'])) for _, b, _ in res]
@@ -1279,7 +1316,7 @@ def lazy_expected_obs(r, res):
 
 
 def lazy_sig(case, n, r, symptom):
-    before = case['hist'][:n]
+    before = lazy_accesses(case)[:n]
     nested = any(case['objs'][j]['parent'] >= 0 for j in r['objs'])
     faulted_before = any(b['plan'] for b in before)
     return 'lazy;access=%s;nested=%s;after_faulted_request=%s;fault_now=%s;symptom=%s' % (
@@ -1302,7 +1339,8 @@ def compare_lazy(ctx, case, mo):
     impl = run_lazy_impl(case)
     ctx.traces_validated += 1
     discr = mo is not None and counter != spec
-    for n, (r, ent, res) in enumerate(zip(case['hist'], impl, pys)):
+    acc = lazy_accesses(case)
+    for n, (r, ent, res) in enumerate(zip(acc, impl, pys)):
         exp_cls, exp_obs = lazy_expected_obs(r, res)
         exp_calls = [c for _, _, l in res for c in l]
         show = dict(request=n, got=dict(cls=ent['cls'], obs=ent['obs'], calls=ent['calls'], exc=ent['exc']),
@@ -1323,9 +1361,15 @@ def compare_lazy(ctx, case, mo):
                 sym = 'half_built_dataset_served'
         elif ent['calls'] != exp_calls:
             sym = 'transforms_applied_again' if len(ent['calls']) > len(exp_calls) else 'transform_calls_differ'
+        elif ent['early']:
+            sym = 'not_lazy'
+            want['reads'] = []
+            show['got']['reads'] = ent['early'][:6]
         if sym is not None:
             known = None
-            if ent['exc'] and 'Missing dependency' in ent['exc']:
+            if sym == 'wrong_data' and ent.get('zero_block') and ent.get('via_getitem') == exp_obs:
+                known = F54_SIG
+            elif ent['exc'] and 'Missing dependency' in ent['exc']:
                 known = F23_SIG
             elif ent['exc'] and 'range() arg 3 must not be zero' in ent['exc']:
                 known = F24_SIG
@@ -1346,13 +1390,16 @@ def compare_lazy(ctx, case, mo):
                 ctx.disagree(lazy_sig(case, n, r, 'tie'), cj, show, mo[1], 'request %d differs from the extracted model of '
                              'the translated statement skeleton of DaskLazyIndexer.dataset' % n, spec=mo[2], kind='tie')
                 break
-    nfault = sum(1 for r in case['hist'] if r['plan'])
-    retry = any(r['plan'] for r in case['hist'][:-1])
+    nfault = sum(1 for r in acc if r['plan'])
+    retry = any(r['plan'] for r in acc[:-1])
     ctx.note_case(('lazy', tuple(case['shape']), repr(cj['objs']), repr(cj['hist'])),
                   nontrivial=bool(retry and any(len(o['trs']) >= 2 for o in case['objs'])),
                   sample=dict(shape=case['shape'], objs=cj['objs'], hist=cj['hist']))
     ctx.count('lazy:objects=%d' % len(case['objs']))
-    ctx.count('lazy:requests', len(case['hist']))
+    ctx.count('lazy:requests', len(acc))
+    ctx.count('lazy:src=' + case.get('src', 'from_array'))
+    if len(acc) < len(case['hist']):
+        ctx.count('lazy:index_arrays_mutated_between_requests')
     ctx.count('lazy:faulted_requests', nfault)
     if any(o['parent'] >= 0 for o in case['objs']):
         ctx.count('lazy:nested')
@@ -1360,7 +1407,7 @@ def compare_lazy(ctx, case, mo):
         ctx.count('lazy:shared_parent')
     if discr:
         ctx.count('lazy:history_separates_in_place_build')
-    for r, res in zip(case['hist'], pys):
+    for r, res in zip(acc, pys):
         ctx.count('lazy:access=' + r['kind'])
         ctx.count('lazy:outcome=' + res[-1][0])
 
